@@ -192,7 +192,7 @@ impl World for WorldI {
                     } else {
                         InBody::Transfer {
                             tok: if rng.chance(9, 10) { TokRef::Registered(rng.below(6) as u8) } else { TokRef::Unknown(rng.below(3) as u8) },
-                            to: match rng.weighted(&[10, 4, 1]) { 0 => Recipient::User(rng.below(4) as u8), 1 => Recipient::App, _ => Recipient::Garbage },
+                            to: match rng.weighted(&[10, 4, 1, 1, 1]) { 0 => Recipient::User(rng.below(4) as u8), 1 => Recipient::App, 3 => Recipient::Service, 4 => Recipient::GasService, _ => Recipient::Garbage },
                             amount: match rng.weighted(&[1, 10, 3, 2, 1, 1, 1, 1, 2]) {
                                 0 => InAmt::Zero,
                                 1 => InAmt::Lit(rng.range(1, 300) as i64),
